@@ -1886,10 +1886,25 @@ def check_C04(rep):
     rep.exhaustive = False
 
 
+def exterr_replay(payload):
+    exe = vlib.build_harness()
+    d = os.path.join(vlib.scratch(), "replay-%d" % random.randrange(1 << 30))
+    os.makedirs(d)
+    out = os.path.join(d, "t.ndjson")
+    p = subprocess.run([exe, "exterr-run", "-out", out, "-seed", str(payload["seed"]), "-tier", payload["tier"]], capture_output=True, text=True)
+    if p.returncode != 0:
+        raise Inconclusive("exterr-run failed: " + p.stderr[-2000:])
+    res = vlib.validate_traces([out], payload["trace_module"], payload["trace_cfg"], os.path.basename(d) + "-tv")
+    for r in res:
+        if "error" in r:
+            raise Inconclusive(r["error"])
+    return any(not r["ok"] for r in res)
+
+
 def replay(rep, path):
     payload = json.load(open(path))
     eng = payload.get("engine")
-    fn = {"hist": hist_replay, "storage-random": storage_random_replay, "multirun": multirun_replay, "bytes": bytes_replay, "crash": crash_replay, "pools": pools_replay}.get(eng)
+    fn = {"hist": hist_replay, "storage-random": storage_random_replay, "multirun": multirun_replay, "bytes": bytes_replay, "crash": crash_replay, "pools": pools_replay, "exterr": exterr_replay}.get(eng)
     if fn is None:
         raise Inconclusive("unknown engine in replay file: %s" % eng)
     if fn(payload):
